@@ -847,6 +847,9 @@ pub fn run_case(case: &Case, wall_bound: Duration, verbose: bool, watch_drops: b
     if hung {
         classes.push("hung".into());
     }
+    // one count per configuration and class
+    classes.sort();
+    classes.dedup();
     let nontrivial = (total >= 2 && n_dropped > 0) || delayed_timeout_block;
 
     // clean up the runtime threads (best effort; not possible after a hang)
